@@ -120,6 +120,32 @@ func runNextFrame(data []byte, chunk int) decRes { return runNextFrameState(data
 // header whatever side it is told to be on; the side must not change what it decodes.
 var readerStates = []ws.State{ws.StateServerSide, ws.StateClientSide, ws.StateServerSide | ws.StateExtended}
 
+// runNextFrameKind: the streaming reader's decoder over the standard reader types.
+func runNextFrameKind(kind string, data []byte) decRes {
+	var src io.Reader
+	var left func() int
+	switch kind {
+	case "bufio-primed", "bufio-primed-16":
+		size := 32
+		if kind == "bufio-primed-16" {
+			size = 16
+		}
+		br := bufio.NewReaderSize(env.NewSrc(data), size)
+		br.Peek(1)
+		src = br
+		left = func() int { rest, _ := io.ReadAll(br); return len(rest) }
+	case "bytes.Reader":
+		r := bytes.NewReader(data)
+		src, left = r, r.Len
+	default:
+		r := bytes.NewBuffer(append([]byte{}, data...))
+		src, left = r, r.Len
+	}
+	rd := &wsutil.Reader{Source: src, SkipHeaderCheck: true}
+	h, err := rd.NextFrame()
+	return decRes{h: h, err: err, used: len(data) - left()}
+}
+
 func runNextFrameState(data []byte, chunk int, st ws.State) decRes {
 	s := env.NewSrc(data)
 	s.Policy = env.FixedChunk(chunk)
@@ -226,6 +252,12 @@ func main() {
 								k := runNextFrameState(data, 0, st)
 								if (k.err == nil) != (b.err == nil) || (b.err == nil && (k.h != b.h || k.used != b.used || k.maxEnd > b.used)) {
 									return explore.Failf("NextFrame-depends-on-side", "state %08b: %+v/%d (reads reach %d) err=%v; state 0: %+v/%d err=%v", st, k.h, k.used, k.maxEnd, k.err, b.h, b.used, b.err)
+								}
+							}
+							for _, kind := range kinds {
+								k := runNextFrameKind(kind, data)
+								if (k.err == nil) != (b.err == nil) || (b.err == nil && (k.h != b.h || k.used != b.used)) {
+									return explore.Failf("NextFrame-depends-on-reader-type:"+kind, "plain reader: %+v/%d err=%v; %s: %+v/%d err=%v", b.h, b.used, b.err, kind, k.h, k.used, k.err)
 								}
 							}
 							for _, kind := range kinds {
@@ -606,6 +638,79 @@ func main() {
 										return nil
 									})
 								}
+							}
+						}
+					}
+				}
+			}
+			t.Outcome("as-ReadHeader")
+		})
+
+		// The streaming reader's decoder in the middle of a stream, over a buffered source that
+		// already holds what follows (the reader Dial and Upgrade hand back): a fragmented message
+		// with a control frame between its fragments whose payload the caller's handler reads
+		// (entirely, in part, or not at all), then the next frame's header - decoded like ReadHeader
+		// decodes those very bytes, consuming exactly them.
+		r.Part("E8-decoding-after-an-in-message-control-frame-over-buffered-sources", func(t *explore.T) {
+			for _, masked := range []bool{false, true} {
+				for _, ctlLen := range []int{0, 1, 2, 5, 125} {
+					for _, handler := range []string{"none", "reads-all", "reads-1", "reads-nothing"} {
+						for _, source := range []string{"plain", "bufio-primed-4096", "bufio-primed-16", "bytes.Reader"} {
+							for hi := 0; hi < 32; hi++ {
+								h := refmodel.Hdr{Fin: hi&1 != 0, Rsv: byte(hi>>1) & 7, Op: []byte{1, 0xb}[hi>>4&1], Masked: masked, Mask: masks[2], Len: 4}
+								masked, ctlLen, handler, source := masked, ctlLen, handler, source
+								t.Do(func() string {
+									return fmt.Sprintf("masked=%v Text-(ab) Ping(%d bytes, handler %s) Cont(cd) then hdr %s, source %s", masked, ctlLen, handler, h, source)
+								}, func() *explore.Fail {
+									fr := func(op byte, fin bool, p []byte) []byte {
+										return refmodel.Frame{H: refmodel.Hdr{Fin: fin, Op: op, Masked: masked, Mask: masks[1]}, Payload: p}.Wire()
+									}
+									prefix := append(append(fr(1, false, []byte("ab")), fr(9, true, bytes.Repeat([]byte{'p'}, ctlLen))...), fr(0, true, []byte("cd"))...)
+									enc := refmodel.HdrEncode(h)
+									data := append(append(append([]byte{}, prefix...), enc...), sentinel...)
+									var src io.Reader
+									var left func() int
+									switch source {
+									case "plain":
+										e := env.NewSrc(data)
+										src, left = e, func() int { return len(data) - e.Off }
+									case "bytes.Reader":
+										b := bytes.NewReader(data)
+										src, left = b, b.Len
+									default:
+										size := 4096
+										if source == "bufio-primed-16" {
+											size = 16
+										}
+										br := bufio.NewReaderSize(env.NewSrc(data), size)
+										br.Peek(1)
+										src, left = br, func() int { rest, _ := io.ReadAll(br); return len(rest) }
+									}
+									rd := &wsutil.Reader{Source: src, SkipHeaderCheck: true}
+									switch handler {
+									case "reads-all":
+										rd.OnIntermediate = func(_ ws.Header, r io.Reader) error { _, err := io.Copy(io.Discard, r); return err }
+									case "reads-1":
+										rd.OnIntermediate = func(_ ws.Header, r io.Reader) error { r.Read(make([]byte, 1)); return nil }
+									case "reads-nothing":
+										rd.OnIntermediate = func(ws.Header, io.Reader) error { return nil }
+									}
+									if _, err := rd.NextFrame(); err != nil {
+										return explore.Failf("harness-first-frame", "%v", err)
+									}
+									p, err := io.ReadAll(rd)
+									if err != nil || string(p) != "abcd" {
+										return explore.Failf("message-around-the-control-frame", "payload %q err=%v", p, err)
+									}
+									g, err := rd.NextFrame()
+									if err != nil || !sameHdr(g, h) {
+										return explore.Failf("NextFrame-after-in-message-control-frame-differs-from-ReadHeader:"+source, "err=%v got %+v; on the wire: %s", err, g, h)
+									}
+									if got := len(data) - left(); got != len(prefix)+len(enc) {
+										return explore.Failf("consumption-after-in-message-control-frame:"+source, "consumed %d want %d", got, len(prefix)+len(enc))
+									}
+									return nil
+								})
 							}
 						}
 					}
